@@ -96,6 +96,13 @@ int main(int argc, char **argv) {
             evtext += "\n";
         }
 #endif
+        std::string schedtext;
+#ifdef PARMCB_SHIM
+        // every parallel_reduce this rank executed, in call order, as terms of Model/Sched.lean's `Sched` (local index ranges)
+        for (auto &l : tbbshim::ctl().log) if (l.compare(0, 7, "reduce ") == 0) schedtext += l.substr(7) + "\n";
+#endif
+        std::vector<std::string> schedtexts;
+        mpi::gather(world, schedtext, schedtexts, 0);
         std::string report = "rank " + std::to_string(world.rank()) + " emitted " + std::to_string(cycles.size()) + " order" + myorder;
         std::vector<std::string> evtexts;
         mpi::gather(world, evtext, evtexts, 0);
@@ -135,6 +142,10 @@ int main(int argc, char **argv) {
                         std::cout << "\n";
                     }
                 }
+            }
+            for (std::size_t rk = 0; rk < schedtexts.size(); rk++) {
+                std::istringstream is(schedtexts[rk]); std::string ln;
+                while (std::getline(is, ln)) if (!ln.empty()) std::cout << "rsched " << rk << " " << ln << "\n";
             }
             std::cout << "entry " << entry << " " << world.size() << "\n";
             for (auto &r : reports) std::cout << r << "\n";
